@@ -178,6 +178,49 @@ static void do_walk(const std::string &line, const J &in, FILE *out) {
     fprintf(out, "%s\n", s.c_str());
 }
 
+
+// ---------------------------------------------------------------- C09 on the REAL sub-tree macros (rRecur, rRecurp, rRecurs, rEnabledBy, rToggle)
+// A fixed application; its abstract description (same JSON form as the generated tables, ids below) comes with the input, together with the
+// runtime state: which pointers are null, what the enabling toggle says.  Output has the form of do_walk, so the same judge applies.
+#include <rtosc/port-sugar.h>
+namespace wsugar {
+template <int K> struct S { int u = 0; int v = 0; static const rtosc::Ports ports; };
+#define rObject S<K>
+template <int K> const rtosc::Ports S<K>::ports = { rParamI(u, "u"), rParamI(v, "v") };
+#undef rObject
+struct W { int x = 0; bool en = true; S<3> m; S<4> *p1 = nullptr; S<5> *p2 = nullptr; S<6> arr[2]; static const rtosc::Ports ports; };
+#define rObject W
+const rtosc::Ports W::ports = {
+    rParamI(x, "x"), rToggle(en, "en"), rRecur(m, rEnabledBy(en), "member sub-tree"), rRecurp(p1, "pointer sub-tree"), rRecurp(p2, "pointer sub-tree"), rRecurs(arr, 2, "enumerated sub-trees"),
+};
+#undef rObject
+}
+static void do_walksugar(const std::string &line, const J &in, FILE *out) {
+    using namespace wsugar;
+    W app; S<4> s4; S<5> s5; if (in["p1"].b) app.p1 = &s4; if (in["p2"].b) app.p2 = &s5; app.en = in["en"].b; bool use_rt = in["rt"].b;
+    port_ids.clear();
+    // ids: top level 1..7 in table order (x, en, m/, m:, p1/, p2/, arr#2/), sub-tree ports 10*k+1, 10*k+2
+    for (size_t k = 0; k < W::ports.ports.size(); ++k) port_ids[&W::ports.ports[k]] = (int)k + 1;
+    auto sub = [&](const rtosc::Ports &ps, int base) { for (size_t k = 0; k < ps.ports.size(); ++k) port_ids[&ps.ports[k]] = base + (int)k + 1; };
+    sub(S<3>::ports, 30); sub(S<4>::ports, 50); sub(S<5>::ports, 60); sub(S<6>::ports, 70);
+    JW w; w.obj().kstr("k", "walk").key("table").raw("@T@").kbool("rt", use_rt).key("state").arr().arr().num(2).boolean(app.en).end_arr().end_arr();
+    w.key("runs").arr();
+    int sig = vg_run(60, [&] {
+        static const char *PREF[2] = {"", "/"};
+        for (int pf = 0; pf < 2; ++pf) {
+            char buf[1024]; memset(buf, 0, sizeof buf); strcpy(buf, PREF[pf]);
+            walked.clear(); int h0 = vg_asan_hits;
+            walk_ports(&W::ports, buf, sizeof buf, nullptr, walker, true, use_rt ? (void *)&app : nullptr, false);
+            w.obj().kbytes("prefix", (const uint8_t *)PREF[pf], strlen(PREF[pf])).kbytes("after", (const uint8_t *)buf, strnlen(buf, sizeof buf));
+            w.key("walked").arr(); for (auto &r : walked) { w.obj().knum("id", r.id).kbytes("addr", (const uint8_t *)r.addr.data(), r.addr.size()).end_obj(); } w.end_arr();
+            w.key("reach").arr().end_arr().knum("asan", vg_asan_hits - h0).end_obj();
+        } });
+    w.end_arr().knum("sig", sig).kstr("asan_what", vg_asan_first).end_obj();
+    std::string t = line.substr(line.find("\"table\":") + 8); size_t cut = t.rfind(",\"rt\""); t = t.substr(0, cut);
+    std::string s = w.s; size_t pos = s.find("@T@"); s.replace(pos, 3, t);
+    fprintf(out, "%s\n", s.c_str());
+}
+
 // ---------------------------------------------------------------- C17 metadata
 static void do_meta(const J &in, FILE *out) {
     std::vector<uint8_t> block = in["block"].bytes();
@@ -247,6 +290,6 @@ int main(int argc, char **argv) {
     if (argc < 4) return 2;
     std::string mode = argv[1]; FILE *f = fopen(argv[2], "r"); FILE *out = fopen(argv[3], "w"); if (!f || !out) return 2;
     std::string line;
-    while (read_line(f, line)) { if (line.empty()) continue; J j = jparse(line); if (mode == "dispatch") do_dispatch(line, j, out); else if (mode == "walk") do_walk(line, j, out); else if (mode == "meta") do_meta(j, out); else if (mode == "collapse") do_collapse(j, out); else if (mode == "search") do_search(line, j, out); }
+    while (read_line(f, line)) { if (line.empty()) continue; J j = jparse(line); if (mode == "dispatch") do_dispatch(line, j, out); else if (mode == "walk") do_walk(line, j, out); else if (mode == "walksugar") do_walksugar(line, j, out); else if (mode == "meta") do_meta(j, out); else if (mode == "collapse") do_collapse(j, out); else if (mode == "search") do_search(line, j, out); }
     fclose(out); return 0;
 }
